@@ -6,6 +6,12 @@ Conventions (see Orient.tla): G = integer reciprocal metric, gi = G*SCALE, hkl a
 with B the upper triangular Cholesky factor (B^T.B = gi; the Busing-Levy B), ring numbers are 1-based
 in the specification and 0-based in the code, pair positions x are 0-based (as in the code) inside the
 "order" list and kept positions k are 1-based indices into the kept list.
+
+Scale family (Orient.tla, SCALE): the instance (cell, k) is the k = 0 cell with every edge multiplied by 2^k.
+It is built from the k = 0 quantities by exact scaling (edges * 2^k, B * 2^-k, B^-1 * 2^k, gi * 4^-k, d* limit
+and ring tolerance * 2^-k), so that everything the code computes for (cell, k) from g / 2^k is, in exact AND in
+binary64 arithmetic, what it computes for (cell, 0) from g, times the power of two the quantity's dimension
+asks for: the scale law is compared bit for bit (np.array_equal).
 """
 from __future__ import print_function
 import math, json
@@ -63,23 +69,34 @@ def ubi_from_pair(B, BI, ha, hb, g1, g2):
 class RealCell(object):
     """the real ImageD11 unitcell of a specification cell record + what the model says about it"""
 
-    def __init__(self, ucmod, crec, nr):
+    def __init__(self, ucmod, crec, nr, k=0):
         self.ucmod = ucmod
         self.rec = crec
         self.id = crec["cell"]
+        self.k = int(k)
+        self.s = 2.0 ** self.k                  # edges are multiplied by s (exact in binary64)
+        self.name = self.id if self.k == 0 else "%s*2^%d" % (self.id, self.k)
         self.G = np.array(crec["G"], int)
         self.nr = nr
         self.qs = crec["qs"]
         self.rings = [[tuple(h) for h in ring] for ring in crec["rings"]]
         self.aut = set(tuple(tuple(r) for r in m) for m in crec["aut"])
-        self.lp = lattice_parameters(crec["G"])
-        self.B = chol_B(crec["G"])
-        self.BI = np.linalg.inv(self.B)
-        self.gi = np.array(crec["G"], float) * SCALE
-        self.g = np.linalg.inv(self.gi)
-        self.limit = math.sqrt((self.qs[nr - 1] + 0.5) * SCALE)
+        self.autarr = np.array(sorted(self.aut), int)                  # (n,3,3)
+        s = self.s
+        lp0 = lattice_parameters(crec["G"])
+        self.lp = [lp0[0] * s, lp0[1] * s, lp0[2] * s, lp0[3], lp0[4], lp0[5]]
+        B0 = chol_B(crec["G"])
+        self.B = B0 / s
+        self.BI = np.linalg.inv(B0) * s
+        self.gi = np.array(crec["G"], float) * SCALE / (s * s)
+        self.g = np.linalg.inv(np.array(crec["G"], float) * SCALE) * (s * s)
+        self.limit = math.sqrt((self.qs[nr - 1] + 0.5) * SCALE) / s
+        self.tol = 0.001 / s                    # makerings' default tolerance, in the units of this cell's d*
         self.cell = ucmod.unitcell(self.lp, crec["cen"])
-        self.cell.makerings(self.limit)
+        if self.k == 0:
+            self.cell.makerings(self.limit)     # the default tolerance, as a user would call it
+        else:
+            self.cell.makerings(self.limit, tol=self.tol)
 
     def ring_problems(self):
         """compare the real ring table with the model's rings (C03 territory: reported, not judged here)"""
@@ -92,9 +109,19 @@ class RealCell(object):
             if real != set(self.rings[r]):
                 probs.append("ring %d: real - model = %s, model - real = %s" % (
                     r, sorted(real - set(self.rings[r]))[:4], sorted(set(self.rings[r]) - real)[:4]))
-            if abs(c.ringds[r] - math.sqrt(self.qs[r] * SCALE)) > 1e-9:
-                probs.append("ring %d: d* %r, model %r" % (r, c.ringds[r], math.sqrt(self.qs[r] * SCALE)))
+            if abs(c.ringds[r] - math.sqrt(self.qs[r] * SCALE) / self.s) > 1e-9 / self.s:
+                probs.append("ring %d: d* %r, model %r" % (r, c.ringds[r], math.sqrt(self.qs[r] * SCALE) / self.s))
         return probs
+
+    def canon(self, pairs):
+        """canonical representative under Aut+(G) of each (ha, hb) in pairs (array (n,2,3)): the class of
+        "indexes the same"; returns a list of hashable keys"""
+        P = np.asarray(pairs, int).reshape(-1, 2, 3)
+        img = np.einsum("mij,nkj->nmki", self.autarr, P).reshape(len(P), len(self.autarr), 6)    # M.ha, M.hb
+        out = []
+        for a in img:
+            out.append(min(map(tuple, a.tolist())))
+        return out
 
     def equiv(self, x, y):
         """pairs x, y ((ha,hb) tuples) related by a member of Aut+(G) (group supplied by TLC)"""
@@ -155,11 +182,14 @@ def record_ringpair(rc, rec, r1, r2):
     order = np.argsort(c2a.ravel())
     n2 = len(call["h2"])
     opairs = [[list(call["h1"][int(f) // n2]), list(call["h2"][int(f) % n2])] for f in order]
-    pairs, cangs, matrs = val
-    return dict(error=err, val=val, h1=call["h1"], h2=call["h2"], c2a=c2a, flat=[int(f) for f in order],
-                order=opairs,
-                kept=[(tuple(int(v) for v in a), tuple(int(v) for v in b)) for a, b in pairs],
-                cangs=[float(c) for c in cangs], matrs=[np.array(m, float) for m in matrs])
+    try:
+        pairs, cangs, matrs = val
+        return dict(error=err, val=val, h1=call["h1"], h2=call["h2"], c2a=c2a, flat=[int(f) for f in order],
+                    order=opairs,
+                    kept=[(tuple(int(v) for v in a), tuple(int(v) for v in b)) for a, b in pairs],
+                    cangs=[float(c) for c in cangs], matrs=[np.array(m, float).reshape(3, 3) for m in matrs])
+    except Exception as e:      # noqa  (what the tree handed out is not a (pairs, cosines, BT matrices) triple)
+        return dict(error="getanglehkls returned something that is not (hkl pairs, cosines, 3x3 matrices): %r" % (e,))
 
 
 def rot_matrix(r):
@@ -207,9 +237,122 @@ def judge_kept_direct(rc, real, q1, q2):
     return probs
 
 
+def exact_keys(rc, order):
+    """N = ha.G.hb of every pair of `order` (exact integers)"""
+    P = np.asarray(order, int).reshape(-1, 2, 3)
+    return np.einsum("ni,ij,nj->n", P[:, 0], rc.G, P[:, 1])
+
+
+def class_counts(rc, order, nk):
+    """per N: the number of classes of "indexes the same" among the pairs of the ring pair (independent of the code
+    and of the block machine: canonical forms under the Aut+ supplied by the specification)"""
+    sets = {}
+    for n, c in zip(nk, rc.canon(order)):
+        sets.setdefault(int(n), set()).add(c)
+    return dict((n, len(v)) for n, v in sets.items())
+
+
+def direct_rec(rc, r1, r2, real):
+    """the kept-list record the property judgement needs, made without the block machine: every pair of the
+    model's ring1 x ring2 with its exact N; used when the recorded order is not one the specification accepts"""
+    order = [[list(a), list(b)] for a in rc.rings[r1 - 1] for b in rc.rings[r2 - 1]]
+    nk = [int(v) for v in exact_keys(rc, order)]
+    q1, q2 = rc.qs[r1 - 1], rc.qs[r2 - 1]
+    kept = real.get("kept", [])
+    return {"n": len(order), "nk": nk, "small": [1 if 2500 * n * n < 2401 * q1 * q2 else 0 for n in nk],
+            "keptpairs": [[list(a), list(b)] for a, b in kept],
+            "keptn": [int(v) for v in exact_keys(rc, kept)] if kept else [], "_direct": True, "_order": order}
+
+
+def diagnose_order(rc, r1, r2, real):
+    """why the specification rejected the recorded order (ValidOrder).  Returns the reasons that are the doing of
+    the tree under test; an empty list means the recording itself is at fault (harness)."""
+    why = []
+    for nm, h, ring in (("first", real["h1"], rc.rings[r1 - 1]), ("second", real["h2"], rc.rings[r2 - 1])):
+        if sorted(h) != sorted(ring):
+            why.append("the %s hkl list handed to filter_pairs is not ring %d (%d hkls, the ring has %d)"
+                       % (nm, (r1 if nm == "first" else r2) - 1, len(h), len(ring)))
+    if not why:
+        q1, q2 = rc.qs[r1 - 1], rc.qs[r2 - 1]
+        s12 = math.sqrt(q1 * q2)
+        exact = np.array([[float(np.dot(a, np.dot(rc.G, b))) / s12 for b in real["h2"]] for a in real["h1"]])
+        c2a = np.asarray(real["c2a"], float)
+        if c2a.shape != exact.shape:
+            why.append("the cosine table handed to filter_pairs has shape %s for %d x %d hkls" % (c2a.shape,) + exact.shape)
+        else:
+            bad = np.argwhere(~(np.abs(c2a - exact) <= 1e-9))
+            if len(bad):
+                i, j = (int(v) for v in bad[0])
+                why.append("the cosine table handed to filter_pairs is not the cosines of ring %d x ring %d: %d of %d entries "
+                           "differ, e.g. %s, %s given as %r, exact %r" % (r1 - 1, r2 - 1, len(bad), exact.size,
+                                                                          real["h1"][i], real["h2"][j], float(c2a[i, j]),
+                                                                          float(exact[i, j])))
+    return why
+
+
+def judge_direct_routes(rc, rt, imod, order, small, U):
+    """the other implementations of the two-reflection formula, for EVERY hkl pair with |cos| < 0.98 of the ring
+    pair (no lookup, no filtering in between): given the true indices the result must be the generating UBI
+      unitcell.orient_BL(B, ha, hb, g1, g2)                         python triads
+      unitcell.BTmat(ha, hb, B, BI) + cImageD11.quickorient         the C kernel with a freshly made BT
+      indexing.ubi_fit_2pks(UBI, g1, g2)                            re-fit of the generating UBI to its own pair
+    returns list of problem texts (first of each kind) and the number of evaluations"""
+    probs, seen, n = [], set(), 0
+    UB = np.dot(U, rc.B)
+    want = np.dot(rc.BI, U.T)
+    tol = REL * float(np.abs(rc.BI).max()) + 1e-12 * rc.s
+    cB = np.asarray(rc.cell.B, float)
+    cBI = np.linalg.inv(cB)
+
+    def bad(kind, text):
+        if kind not in seen:
+            seen.add(kind)
+            probs.append(text)
+    for x, (a, b) in enumerate(order):
+        if not small[x]:
+            continue
+        ha = np.array(a, float)
+        hb = np.array(b, float)
+        g1 = np.dot(UB, ha)
+        g2 = np.dot(UB, hb)
+        n += 1
+        try:
+            ubi, ub = rc.ucmod.orient_BL(cB, ha, hb, g1, g2)
+            if not (np.abs(np.asarray(ubi, float) - want).max() <= tol):
+                bad("BL", "orient_BL(B, %s, %s, U.B.h1, U.B.h2) is not the generating UBI (max deviation %.3g, %.3g of the "
+                    "largest entry)" % (a, b, float(np.abs(ubi - want).max()), float(np.abs(ubi - want).max() / np.abs(want).max())))
+        except Exception as e:      # noqa
+            bad("BLx", "orient_BL(B, %s, %s, ..) raised %r" % (a, b, e))
+        try:
+            BT = rc.ucmod.BTmat(ha, hb, cB, cBI)
+            ubi = np.zeros((3, 3))
+            ubi[0] = g1
+            ubi[1] = g2
+            rt.quickorient(ubi, BT)
+            if not (np.abs(ubi - want).max() <= tol):
+                bad("QO", "quickorient(U.B.%s, U.B.%s; BTmat of the same hkls) is not the generating UBI (max deviation %.3g, "
+                    "%.3g of the largest entry)" % (a, b, float(np.abs(ubi - want).max()),
+                                                    float(np.abs(ubi - want).max() / np.abs(want).max())))
+        except Exception as e:      # noqa
+            bad("QOx", "BTmat / quickorient for %s, %s raised %r" % (a, b, e))
+        if imod is not None:
+            try:
+                ufit = np.asarray(imod.ubi_fit_2pks(want.copy(), g1, g2), float)
+                M = np.dot(ufit, UB)
+                if not (np.abs(M - np.eye(3)).max() <= TOL_INT):
+                    bad("FIT", "ubi_fit_2pks(generating UBI, U.B.%s, U.B.%s) no longer indexes the grain (UBI.UB - 1 up to %.3g)"
+                        % (a, b, float(np.abs(M - np.eye(3)).max())))
+            except Exception as e:      # noqa
+                bad("FITx", "ubi_fit_2pks for %s, %s raised %r" % (a, b, e))
+    return probs, n
+
+
 class OrientStats(object):
     def __init__(self):
         self.calls = 0
+        self.law_exact = 0
+        self.law_differs = 0
+        self.direct_routes = 0
         self.skipped_collinear = 0
         self.ambiguous_nearest = 0
         self.multi = 0
@@ -217,9 +360,11 @@ class OrientStats(object):
         self.dedup = 0
 
 
-def judge_orient(rc, r1, r2, kept_rec, lookups, U, x, mode, stats, perturb=None, conform=True):
+def judge_orient(rc, r1, r2, kept_rec, lookups, U, x, mode, stats, perturb=None, conform=True, store=None, law=None):
     """one orient() call for pair position x (0-based) of the recorded order, rotation U, mode in
-    (0 nearest, 2, 710).  Returns list of (kind, text): kind 'property' | 'conformance'."""
+    (0 nearest, 2, 710).  Returns list of (kind, text): kind 'property' | 'conformance'.
+    store: dict that receives the UBIlist of this call (key: ring pair, hkl pair, mode);
+    law  : the store of the k = 0 instance of the same cell (same rotation): the scale law is compared bit for bit"""
     order = kept_rec["_order"]
     ha = np.array(order[x][0], float)
     hb = np.array(order[x][1], float)
@@ -237,6 +382,17 @@ def judge_orient(rc, r1, r2, kept_rec, lookups, U, x, mode, stats, perturb=None,
         return [("property", "orient raised %r" % (e,))]
     stats.calls += 1
     ubis = [np.array(u, float) for u in cell.UBIlist]
+    lkey = (r1, r2, tuple(order[x][0]), tuple(order[x][1]), mode)
+    if store is not None:
+        store[lkey] = ubis
+    if law is not None and lkey in law:
+        base = law[lkey]
+        if len(base) == len(ubis) and all(np.array_equal(u, b * rc.s) for u, b in zip(ubis, base)):
+            stats.law_exact += 1
+        else:
+            stats.law_differs += 1
+            probs.append(("conformance", "scale law: UBIlist of the cell scaled by 2^%d is not 2^%d times (bit for bit, same order) "
+                                         "the UBIlist of the unscaled cell (%d / %d members)" % (rc.k, rc.k, len(ubis), len(base))))
     if perturb == "drop" and ubis:
         ubis = ubis[1:]
     if perturb == "dup" and ubis:
@@ -324,10 +480,8 @@ def judge_orient(rc, r1, r2, kept_rec, lookups, U, x, mode, stats, perturb=None,
     if any(not np.all(np.isfinite(u)) for u in ubis):
         probs.append(("property", "UBIlist contains a non-finite matrix"))
     if "_nblock" not in kept_rec:
-        cnt = {}
-        for n in kept_rec["keptn"]:
-            cnt[n] = cnt.get(n, 0) + 1
-        kept_rec["_nblock"] = cnt
+        # number of inequivalent hkl pairs subtending each angle: counted on the pairs themselves (not on any kept list)
+        kept_rec["_nblock"] = class_counts(rc, order, kept_rec["nk"])
     nblock = kept_rec["_nblock"].get(kept_rec["nk"][x], 0)
     if mode == 0 and nblock > 1:
         # several inequivalent pairs subtend this angle: a single returned candidate cannot be required
